@@ -30,6 +30,7 @@ package edge
 //@   trusted
 //@   modifies nothing
 //@   ensures result != nil && result != recv && !gfi(result, mutated, bool)
+//@   ensures result.Time() == recv.Time() && result.Name() == recv.Name() && result.Fields() == recv.Fields() && result.Tags() == recv.Tags()
 
 // Message constructors: assumed (trusted) to allocate and not touch existing modelled memory.
 //@ func NewBatchPointMessage
@@ -122,3 +123,15 @@ package edge
 //@ func BatchPointFromPoint
 //@   trusted
 //@   pure
+
+// ---------------------------------------------------------------- buffered batches (C18)
+// Assumed of every buffered batch: its point list holds messages (no nil entries) and it has a
+// begin message.
+//@ func (BufferedBatchMessage).Points
+//@   trusted
+//@   pure
+//@   ensures forall i int :: 0 <= i && i < len(result) ==> result[i] != nil
+//@ func (BufferedBatchMessage).Begin
+//@   trusted
+//@   pure
+//@   ensures result != nil
